@@ -76,6 +76,19 @@ impl TwinSys {
     }
 }
 
+impl TwinSys {
+    /// The same pair on a loud signal (peak 2^100).
+    pub fn loud(cfg: &Cfg) -> Result<TwinSys, String> {
+        let props = Props::only("C17");
+        Ok(TwinSys {
+            a: Tracked::<f64>::new(cfg, Signal::NoiseLoud, props)?,
+            b: Tracked::<f32>::new(cfg, Signal::NoiseLoud, props)?,
+            k: k_for(cfg),
+            peak: (2.0f64).powi(100),
+        })
+    }
+}
+
 fn res_eq(a: &Res, b: &Res) -> bool {
     match (a, b) {
         (Res::Panic(x), Res::Panic(y)) => classify(x) == classify(y),
